@@ -397,3 +397,40 @@ func (e *originEnv) rootObj(x ast.Expr) types.Object {
 	}
 	return nil
 }
+
+// originThroughCallers renders e (an expression of function f) by origin; when the origin is a
+// parameter of f and f is an unexported helper, the question is asked at each of f's call sites
+// instead (one level), so that a flag computed by the caller and handed down is seen for what it is.
+func originThroughCallers(c *core.Ctx, f *types.Func, e ast.Expr) []string {
+	ix := index(c)
+	d := ix.Decls[f]
+	if d == nil && f != nil {
+		d = ix.Decls[f.Origin()]
+	}
+	if d == nil {
+		return nil
+	}
+	env := newOriginEnv(c, d)
+	o := env.origin(e)
+	if !strings.HasPrefix(o, "param:") || f.Exported() {
+		return []string{o}
+	}
+	var out []string
+	for _, s := range ix.SitesOf(d.Obj) {
+		if s.Encl == nil || s.EnclObj == nil || strings.HasSuffix(c.Prog().Rel(s.Call.Pos()), "_test.go") {
+			continue
+		}
+		cd := ix.Decls[s.EnclObj]
+		if cd == nil {
+			cd = ix.Decls[s.EnclObj.Origin()]
+		}
+		if cd == nil {
+			continue
+		}
+		out = append(out, newOriginEnv(c, cd).forCallee(s.Call, d).origin(e))
+	}
+	if len(out) == 0 {
+		return []string{o}
+	}
+	return out
+}
